@@ -42,11 +42,11 @@ func c07Scenarios() []histParams {
 
 func c11Scenarios() []histParams {
 	ev := []string{"tx:T:R1", "tx:U1:R1", "tx:U1:D1", "inv:T:R1", "ans", "tick:2300", "restart", "restart:raw", "mine+:R1", "mine+:", "settle"}
-	deep := []string{"tx:T:R1", "tx:U1:D1", "tick:2300", "restart", "mine+:R1", "mine+:D1", "mine+:"}
+	deep := []string{"tx:T:R1", "tx:U1:D1", "tx:U1:R1", "tick:2300", "restart", "mine+:R1", "mine+:D1", "mine+:"}
 	// the application subscribes its filter only after the restarted node is already running
 	late := []string{"tx:T:R1", "tick:2300", "restart:late", "tx:U1:R1", "tx:T:R1", "sub", "mine+:R1"}
 	return []histParams{{Prop: "C11", Cfg: txCfg(1), Boot: "synced", Events: ev, Tx: true, Live: true},
-		{Prop: "C11", Cfg: txCfg(1), Boot: "synced", Events: deep, Tx: true, ExtraDepth: 2, Live: true},
+		{Prop: "C11", Cfg: txCfg(1), Boot: "synced", Events: deep, Tx: true, ExtraDepth: 1, Live: true},
 		{Prop: "C11", Cfg: txCfg(1), Boot: "synced", Events: late, Tx: true, ExtraDepth: 2}}
 }
 
